@@ -35,8 +35,9 @@ Fixpoint vals_ints (l : list val) : option (list Z) :=
   | _ => None
   end.
 
-(* VL [VErr] marks "bad arguments": a harness bug, never a model result *)
-Definition bad_args : val := VL [VErr; VErr].
+(* marks "bad arguments": a harness bug, never a model result.  The marker carries the bytes of "bad-args"
+   between two errors so that it cannot coincide with a result list of two failed queries. *)
+Definition bad_args : val := VL [VErr; VB [98; 97; 100; 45; 97; 114; 103; 115]; VErr].
 
 (* ---- used by the extraction self-check (cases evaluated with vm_compute inside Coq) ---- *)
 Fixpoint val_eqb (a b : val) : bool :=
